@@ -20,8 +20,9 @@ SPEC = {
         'an int, reads exactly that many bytes and requires b"," - the same two constants in the same order. Not decided: '
         'slice arithmetic (rolling search offset, surplus bytes), maxsize boundaries, duplication within slices.'
         ' T9.nslimit: read_ns with a per-call maxsize derives the size-prefix limit from that maxsize.'
-        ' T10o: concatenations stored into the receive buffer keep arrival order (token ages). T12.ns is decided on every normal path of read_ns.'),
-    'decided': ['arrival order of buffered bytes', 'netstring prefix limit follows the effective maxsize', 'T10 no received byte is dropped on any exit of the receive methods', 'T9 send buffer advanced before any raising step',
+        ' T10o: concatenations stored into the receive buffer keep arrival order (token ages). T12.ns is decided on every normal path of read_ns.'
+        ' T8.peek: peeked bytes stay in the buffer.'),
+    'decided': ['peek does not consume', 'arrival order of buffered bytes', 'netstring prefix limit follows the effective maxsize', 'T10 no received byte is dropped on any exit of the receive methods', 'T9 send buffer advanced before any raising step',
                 'T12 netstring writer/reader constants agree', 'T7 look-back window of the rolling delimiter search covers every delimiter length (linear form)'],
     'declined': ['offset / slice arithmetic in recv_until and recv_size', 'maxsize boundary behaviour'],
     'trusted_base': ['socket.timeout is a subclass of OSError; only socket calls and explicit raises can fail between taking and storing bytes (len/int arithmetic cannot)'],
